@@ -129,6 +129,69 @@ def k_bytes(b):
         return back == v and "\n" not in t and "\r" not in t
 
 
+# sequences over an alphabet of the characters / bytes that interact with quoting and escaping
+# (adjacency matters: a backslash next to a quote, a quote next to the delimiter, CR LF, ...), at
+# every literal depth: bare, in an f-string field (!r), in a display inside a field, in a nested
+# f-string.  Selector slices: every path is concrete after the picks.
+BYTE_ALPHABET = [0x27, 0x22, 0x5C, 0x0A, 0x0D, 0x00, 0x7F, 0x80, 0xFF, 0x61, 0x7B, 0x7D]
+STR_ALPHABET = ["'", '"', chr(92), chr(10), chr(13), chr(0), chr(0x7F), chr(0x85), chr(0x2028), "a", "{", "}", chr(0xD800), chr(0x1F600), chr(0x0C), chr(0x1C)]
+SEQ_DEPTHS = 4
+
+
+def _at_depth(node, depth):
+    def fv(v, conv=114):
+        return ast.JoinedStr(values=[ast.FormattedValue(value=v, conversion=conv, format_spec=None)])
+
+    if depth == 0:
+        return node
+    if depth == 1:
+        return fv(node)
+    if depth == 2:
+        return fv(ast.List(elts=[node], ctx=ast.Load()), -1)
+    return fv(fv(node), -1)
+
+
+def _expected_at_depth(v, depth):
+    if depth == 0:
+        return v
+    if depth == 1:
+        return repr(v)
+    if depth == 2:
+        return str([v])
+    return repr(v)
+
+
+def _seq_ok(v, depth):
+    tree = _at_depth(ast.Constant(value=v), depth)
+    ast.fix_missing_locations(tree)
+    t = U.expr_unparse(tree)
+    if "\n" in t or "\r" in t:
+        return False
+    try:
+        back = ast.parse(t, mode="eval").body
+        got = eval(compile(ast.Expression(body=back), "<lit>", "eval"), {})
+    except Exception:
+        return False
+    consts = [n.value for n in ast.walk(back) if isinstance(n, ast.Constant) and type(n.value) is type(v)]
+    return got == _expected_at_depth(v, depth) and type(got) is type(_expected_at_depth(v, depth)) and v in consts
+
+
+def k_bytes_seq(i0, i1, i2, n, depth):
+    n = rt.pick(n, 4)
+    depth = rt.pick(depth, SEQ_DEPTHS)
+    idx = [rt.pick(i, len(BYTE_ALPHABET)) for i in (i0, i1, i2)[:n]]
+    with rt.NoTracing():
+        return _seq_ok(bytes(BYTE_ALPHABET[i] for i in idx), depth)
+
+
+def k_str_seq(i0, i1, i2, n, depth):
+    n = rt.pick(n, 4)
+    depth = rt.pick(depth, SEQ_DEPTHS)
+    idx = [rt.pick(i, len(STR_ALPHABET)) for i in (i0, i1, i2)[:n]]
+    with rt.NoTracing():
+        return _seq_ok("".join(STR_ALPHABET[i] for i in idx), depth)
+
+
 KERNELS = {
     # name: (function, params, pre)
     "escape": (k_escape, [("c", "str"), ("dq", "bool")], "len(c) == 1"),
@@ -142,4 +205,6 @@ KERNELS = {
     "fstring_nested_const": (k_fstring_nested_const, [("c", "str")], "len(c) == 1"),
     "dict_key_in_field": (k_dict_key_in_field, [("c", "str")], "len(c) == 1"),
     "bytes": (k_bytes, [("b", "int")], "0 <= b <= 255"),
+    "bytes_seq": (k_bytes_seq, [("i0", "int"), ("i1", "int"), ("i2", "int"), ("n", "int"), ("depth", "int")], "0 <= i0 < %d and 0 <= i1 < %d and 0 <= i2 < %d" % ((len(BYTE_ALPHABET),) * 3)),
+    "str_seq": (k_str_seq, [("i0", "int"), ("i1", "int"), ("i2", "int"), ("n", "int"), ("depth", "int")], "0 <= i0 < %d and 0 <= i1 < %d and 0 <= i2 < %d" % ((len(STR_ALPHABET),) * 3)),
 }
